@@ -371,6 +371,8 @@ type storeEnv struct {
 	blockGets              []blockGet
 	activeStateWrites      int
 	shutdownSeq            int                   // seq at which shutdown was requested (0 = not)
+	shutdownT              time.Duration
+	routineG               int                   // goroutine id of the ProcessBlockPut routine
 	routineReturned        bool
 }
 
@@ -561,6 +563,7 @@ func buildStoreParts(c *sim.RunCtx, s *rt.Sched, cfg *storeCfg, m *media, proc i
 			}
 		})
 		e.group.Go(func(ctx context.Context, siblingsGroup, dependenciesGroup program.Group) error {
+			e.routineG = s.Cur().ID
 			for syncer.ProcessBlockPut(ctx) {
 			}
 			e.routineReturned = true
